@@ -283,3 +283,62 @@ Proof.
     destruct (0 <? stroke_width st); rewrite ?andb_true_r, ?andb_false_r;
     try (rewrite Hw0 by reflexivity); fin_ifs.
 Qed.
+
+(* ---- geometry of the two areas (C06: "grown by the outside part, shrunk by the inside part") ---- *)
+Lemma circle_offset_zero c : circle_ok c -> circle_offset c 0 = c.
+Proof. intros H. destruct c as [[x y] d]. unf_circ. cbn. f_equal; [f_equal|]; lia. Qed.
+
+Theorem circle_stroke_area_grow c st :
+  circle_sok c -> style_ok st -> 1 <= c_d c ->
+  circle_stroke_area c st =
+  Circ (P (px (c_tl c) - outside_stroke_width st) (py (c_tl c) - outside_stroke_width st))
+       (c_d c + 2 * outside_stroke_width st).
+Proof.
+  intros Hc Hs Hd. destruct (offsets_range st Hs) as (E1 & R1 & _). unfold circle_stroke_area. rewrite E1.
+  apply circle_offset_grow; [|assumption|unfold sbound, bound in *; lia].
+  destruct Hc as [[? ?] ?]. unfold circle_ok, point_ok, sbound, bound in *. lia.
+Qed.
+
+Lemma circle_sok_ok c : circle_sok c -> circle_ok c.
+Proof. intros [[? ?] ?]. unfold circle_ok, point_ok, sbound, bound in *. lia. Qed.
+
+Theorem circle_fill_area_shrink c st :
+  circle_sok c -> style_ok st -> stroke_kind st = Solid ->
+  let ins := inside_stroke_width st in
+  (2 * ins < c_d c -> circle_fill_area c st = Circ (P (px (c_tl c) + ins) (py (c_tl c) + ins)) (c_d c - 2 * ins)) /\
+  (c_d c <= 2 * ins -> forall p, circle_contains (circle_fill_area c st) p = false).
+Proof.
+  intros Hc Hs Hk ins. destruct (offsets_range st Hs) as (_ & _ & R2 & E2). rewrite Hk in E2.
+  unfold circle_fill_area. rewrite E2. fold ins in R2 |- *. pose proof (circle_sok_ok c Hc) as Hok.
+  destruct (Z.eq_dec ins 0) as [->|Hn].
+  - change (- 0) with 0. rewrite circle_offset_zero by assumption. split.
+    + intros _. destruct c as [[x y] d]. cbn [c_tl c_d px py]. f_equal; [f_equal|]; lia.
+    + intros Hd p. apply circle_contains_zero. destruct Hc as [_ Hc]. lia.
+  - destruct (circle_offset_shrink c ins Hok ltac:(unfold sbound, bound in *; lia)) as [G1 G2]. split.
+    + exact G1.
+    + intros Hd p. apply circle_contains_zero. apply G2. exact Hd.
+Qed.
+
+(* an inside stroke never paints outside the shape; an outside stroke never paints inside it *)
+Theorem circle_inside_stroke_stays_in c st p :
+  circle_sok c -> style_ok st -> stroke_alignment st = Inside ->
+  render (circle_draw_styled c st) p <> None -> circle_contains c p = true.
+Proof.
+  intros Hc Hs Ha. rewrite circle_styled_spec by assumption. destruct (circle_areas c st Hc Hs) as (HA & HB & Hcc).
+  assert (circle_stroke_area c st = c) as E.
+  { unfold circle_stroke_area, stroke_area_offset, outside_stroke_width. rewrite Ha. apply circle_offset_zero, circle_sok_ok, Hc. }
+  unfold styled_map. pose proof (concentric_sub _ _ p Hcc) as Hsub. rewrite E in *.
+  destruct (circle_contains (circle_fill_area c st) p); [intros _; apply Hsub; reflexivity|].
+  destruct (circle_contains c p); [reflexivity|]. cbn. congruence.
+Qed.
+
+Theorem circle_outside_stroke_stays_out c st p :
+  circle_sok c -> style_ok st -> stroke_alignment st = Outside ->
+  circle_contains c p = true -> render (circle_draw_styled c st) p = fill_color st.
+Proof.
+  intros Hc Hs Ha Hp. rewrite circle_styled_spec by assumption.
+  assert (circle_fill_area c st = c) as E.
+  { unfold circle_fill_area, fill_area_offset, inside_stroke_width. rewrite Ha.
+    destruct (stroke_kind st); apply circle_offset_zero, circle_sok_ok, Hc. }
+  unfold styled_map. rewrite E, Hp. reflexivity.
+Qed.
